@@ -10,8 +10,9 @@ EXPLANATION = (
     "stored latest id + 1; (c) fallback shape: recovery must survive an unreadable newest checkpoint — each store's "
     "load_latest_checkpoint has to try older ids (a loop / iterator over the listed ids) instead of returning the error "
     "of the newest one."
+    " (d) prune keeps the newest: list_checkpoints sorts ascending and prune_checkpoints deletes the first len - keep ids of that list in every store."
 )
-DECIDED = ["atomic temp-file + rename write", "save before prune, id advanced only after both", "whether recovery falls back to an older readable checkpoint"]
+DECIDED = ["atomic temp-file + rename write", "save before prune, id advanced only after both", "whether recovery falls back to an older readable checkpoint", "prune deletes the oldest checkpoints only"]
 NOT_DECIDED = ["crash interleavings inside the file system", "fsync durability"]
 
 P = "varpulis_runtime::persistence::"
